@@ -513,11 +513,17 @@ pub fn install_quiet_panic_hook(record: bool) {
     }));
 }
 
+/// a panic payload that is neither a `String` nor a `&str` (raised with `panic_any`)
+pub struct TypedPanic(pub String);
+
+/// the text of a panic payload, tagged with the payload's type: what a supervisor downcasts is part of the result
 pub fn panic_payload_to_string(p: &(dyn std::any::Any + Send)) -> String {
     if let Some(s) = p.downcast_ref::<&str>() {
-        s.to_string()
+        format!("[&str] {s}")
     } else if let Some(s) = p.downcast_ref::<String>() {
         s.clone()
+    } else if let Some(t) = p.downcast_ref::<TypedPanic>() {
+        format!("[typed] {}", t.0)
     } else {
         "<non-string panic>".to_string()
     }
